@@ -91,7 +91,11 @@ func cmdVerify(args []string) {
 	} else {
 		fmt.Println("smt files in", dir)
 	}
-	dischargeAll(exs, dischargeOpts{timeoutS: 10, dir: dir, jobs: 5})
+	tmo := 10
+	if v := os.Getenv("GOVC_TIMEOUT"); v != "" {
+		fmt.Sscanf(v, "%d", &tmo)
+	}
+	dischargeAll(exs, dischargeOpts{timeoutS: tmo, dir: dir, jobs: 5})
 	bad := 0
 	for _, ex := range exs {
 		for _, n := range ex.ObOrd {
